@@ -51,7 +51,8 @@ def json_structured(machine, doc):
     add("header.type:deleted", ["header", "type"], _DEL)
     d10 = _edit(doc, ["header", "type"], other)
     d10["header"]["version"] = "1.0"
-    out.append({"key": "header.type:swapped@1.0", "data": _dumpj(d10), "must": "accept"})
+    # below 1.1 the type is not part of the format: the property neither demands rejection nor acceptance
+    out.append({"key": "header.type:swapped@1.0", "data": _dumpj(d10), "must": "weak"})
     d11 = _edit(doc, ["header", "type"], other)
     d11["header"]["version"] = "1.1"
     out.append({"key": "header.type:swapped@1.1", "data": _dumpj(d11), "must": "reject"})
@@ -208,7 +209,7 @@ def ini_structured(text):
     def swapped_10(secs):
         r = set_opt("header", "type", "productmd.images")(secs)
         return set_opt("header", "version", "1.0")(r) if r else None
-    variant("header.type:swapped@1.0", swapped_10, "accept")
+    variant("header.type:swapped@1.0", swapped_10, "weak")
 
     def swapped_11(secs):
         r = set_opt("header", "type", "productmd.images")(secs)
@@ -248,6 +249,10 @@ def ini_structured(text):
             for k, v in o:
                 variant("images.path:absolute", set_opt(n, k, "/" + v))
     plats = d.get("tree", {}).get("platforms", "")
+    arch = d.get("tree", {}).get("arch")
+    if arch and ("images-" + arch) in d and arch in plats.split(","):
+        # the tree arch has an image table but is no longer listed: "unreferenced image platform"
+        variant("tree.platforms:omits-arch-that-has-images", set_opt("tree", "platforms", ",".join(p for p in plats.split(",") if p != arch)))
 
     def unref(secs):
         secs.append(("images-nowhere", [("boot.iso", "images/boot.iso")]))
